@@ -118,7 +118,8 @@ Fixpoint grun {K} (c : gcfg) (s : wstate) (ops : list (gop K)) : wstate * list (
 
 (* the sets sent on setChan, in order *)
 Definition sent_of {K} (o : wout K) : list (list K * Z) := match o with WSet ks i => [(ks, i)] | _ => [] end.
-Definition sent {K} (outs : list (list (wout K))) : list (list K * Z) := flat_map sent_of (concat outs).
+Definition sent1 {K} (l : list (wout K)) : list (list K * Z) := flat_map sent_of l.
+Definition sent {K} (outs : list (list (wout K))) : list (list K * Z) := sent1 (concat outs).
 (* the answers of the fetches of a history *)
 Definition answers_of {K} (o : gop K) : list (gans K) := match o with GFetch a => [a] | GRestart a _ => [a] | _ => [] end.
 (* what the per-head scans and the re-observations emitted *)
